@@ -171,7 +171,8 @@ fn run_lace_stdin(args: &[&str], input: &[u8]) -> Option<(i32, String)> {
     let bin = std::env::var("VERIF_LACE_BIN").ok()?;
     let mut child = std::process::Command::new(bin).args(args).stdin(std::process::Stdio::piped()).stdout(std::process::Stdio::piped())
         .stderr(std::process::Stdio::null()).spawn().ok()?;
-    child.stdin.take()?.write_all(input).ok()?;
+    // the process may end without ever reading its input (a script that exits): a broken pipe here is not an error
+    if let Some(mut stdin) = child.stdin.take() { let _ = stdin.write_all(input); }
     let out = child.wait_with_output().ok()?;
     Some((out.status.code().unwrap_or(-1), String::from_utf8_lossy(&out.stdout).to_string()))
 }
